@@ -349,15 +349,28 @@ def run_evaluate(model, t):
         return type(e).__name__
 
 
+DEFAULT_ERRSTATE = dict(divide='warn', over='warn', invalid='warn', under='ignore')     # NumPy's documented default
+
+
 def run_reference(prog, data, t, locate=None, env=None):
-    """gen_scripts.reference_pass with warnings silenced; returns (writes, reads, exception class name or None)."""
+    """gen_scripts.reference_pass under NumPy's DEFAULT error state, set explicitly (a process-global change made by
+    the code under test cannot leak into the oracle).  Returns (writes, reads, exception class name or None);
+    `run_reference.faults` holds the floating-point warnings of the last call (divide / overflow / invalid — never
+    underflow, which NumPy ignores by default)."""
+    run_reference.faults = []
     try:
-        with warnings.catch_warnings(), np.errstate(all='ignore'):
-            warnings.simplefilter('ignore')
-            w, r = gs.reference_pass(prog, data, t, locate=locate, env=env)
+        with warnings.catch_warnings(record=True) as rec, np.errstate(**DEFAULT_ERRSTATE):
+            warnings.simplefilter('always')
+            try:
+                w, r = gs.reference_pass(prog, data, t, locate=locate, env=env)
+            finally:
+                run_reference.faults = [str(x.message) for x in rec if issubclass(x.category, Warning)]
         return w, r, None
     except Exception as e:  # noqa: BLE001
         return None, None, type(e).__name__
+
+
+run_reference.faults = []
 
 
 def literals_of(toks):
@@ -589,6 +602,145 @@ def shadowed_function_roots(prog):
     although tokens, code and evaluation are unambiguous."""
     roots = {f.split('.')[0] for f in called_functions(prog)}
     return roots & set(gs.all_names(prog))
+
+
+# ---------------------------------------------------------------------------------------------------------------
+# HOW the data get into an instance, WHERE the instance comes from, and WHICH data
+
+REGIMES = ['moderate'] * 6 + ['underflow', 'underflow', 'near-overflow', 'signed-zeros', 'subnormal', 'mixed', 'integers']
+REGIME_VALUES = {
+    'underflow': [1e-160, 3e-155, 1e-200, 2.5e-300, 750.0, 1200.0, 40.0, 1e-5, 0.75, -1e-170, -800.0],
+    'near-overflow': [1e308, 1.7e308, 8e307, 1e200, 1e155, 2.0, 0.5, -1e308, 3.0],
+    'signed-zeros': [0.0, -0.0, 1.0, -1.0, 5e-324, 2.5],
+    'subnormal': [5e-324, 1e-310, 2.2250738585072014e-308, -3e-320, 1.0, 4e-309, 0.5],
+    'mixed': [1e-300, 1e300, 1.0, -1e-300, -1e300, 1e-8, 1e8, 709.0, -745.5],
+}
+
+
+def regime_data(r, names, n, regime):
+    if regime == 'integers':
+        return {nm: np.array([float(r.randint(-5, 9)) for _ in range(n)]) for nm in names}
+    vals = REGIME_VALUES[regime]
+    def draw():
+        v = r.choice(vals)
+        w = v * r.choice([1.0, 1.0, 1.0, 1.5, 0.5])
+        return w if np.isfinite(w) else v
+    return {nm: np.array([draw() for _ in range(n)], dtype=float) for nm in names}
+
+
+FILL_MODES = ['inplace', 'list', 'tuple', 'ndarray', 'setitem', 'kwargs', 'replace_values', 'scalar', 'elementwise', 'view']
+SHARE_KINDS = ['same-object', 'other-variable', 'other-variable-setitem', 'replace-values-other', 'view-of-variable',
+               'slice-of-bigger']
+
+
+def data_plan(case, prog, n):
+    """Deterministic (from the case's data seed): the data vector, its regime, and the plan of how every series is
+    assigned.  Series of one sharing group get EQUAL values and are handed one and the same ndarray (or each other's
+    array, or views of it): by the property they are still separate series."""
+    import random
+    rng = random.Random(case['data_seed'])
+    data0 = gs.random_data(rng, prog, n)
+    names = list(data0)
+    plan = {'regime': 'moderate', 'modes': {nm: 'inplace' for nm in names}, 'share': None, 'prov': 'fresh',
+            'copy_after': False}
+    if not case.get('vary', True):
+        return data0, plan
+    r = random.Random(case['data_seed'] + ':plan')
+    plan['regime'] = r.choice(REGIMES)
+    if plan['regime'] != 'moderate':
+        data0 = regime_data(r, names, n, plan['regime'])
+    plan['modes'] = {nm: r.choice(FILL_MODES) for nm in names}
+    plan['prov'] = r.choice(['fresh'] * 7 + ['copy', 'copy', 'reindexed'])
+    plan['copy_after'] = r.random() < 0.1
+    if len(names) >= 2 and r.random() < 0.45:
+        grp = r.sample(names, r.randint(2, min(3, len(names))))
+        plan['share'] = [r.choice(SHARE_KINDS), grp]
+        for nm in grp[1:]:
+            data0[nm] = data0[grp[0]].copy()
+        for nm in grp:
+            if plan['modes'][nm] == 'scalar':
+                plan['modes'][nm] = 'list'
+
+    shared = set(plan['share'][1]) if plan['share'] else set()
+    for nm, mode in plan['modes'].items():
+        if mode == 'scalar' and nm not in shared:
+            data0[nm] = np.full(n, data0[nm][0])
+    return data0, plan
+
+
+def build_filled(Model, span, data0, plan):
+    """An instance of `Model` on `span` obtained and filled as the plan says; the values it holds are `data0`."""
+    import solver_common as sc
+    names = list(data0)
+    n = len(span)
+    modes = dict(plan['modes'])
+    share = plan['share']
+    followers = set(share[1][1:]) if share else set()
+    if share and share[0] in ('same-object', 'slice-of-bigger'):
+        modes[share[1][0]] = 'ndarray'
+    kw = {nm: data0[nm].copy() for nm, md in modes.items() if md == 'kwargs' and nm not in followers} \
+        if plan['prov'] == 'fresh' else {}
+
+    def make(sp):
+        return Model(sp, **kw) if len(sp) == n else Model(sp)
+    with warnings.catch_warnings(), np.errstate(all='ignore'):
+        warnings.simplefilter('ignore')
+        m = sc.with_provenance(make, span, plan['prov'], names)
+    handed = {}
+    for nm in names:
+        if nm in followers or nm in kw:
+            continue
+        a = data0[nm].copy()
+        md = modes[nm]
+        if share and nm == share[1][0] and share[0] == 'slice-of-bigger':
+            big = np.concatenate([np.zeros(2), a, np.zeros(1)])
+            a = big[2:2 + n]
+        handed[nm] = a
+        if md == 'list':
+            setattr(m, nm, [float(x) for x in a])
+        elif md == 'tuple':
+            setattr(m, nm, tuple(float(x) for x in a))
+        elif md in ('ndarray', 'kwargs'):
+            setattr(m, nm, a)
+        elif md == 'setitem':
+            m[nm] = a
+        elif md == 'replace_values':
+            m.replace_values(**{nm: a})
+        elif md == 'scalar':
+            setattr(m, nm, float(a[0]))
+        elif md == 'elementwise':
+            arr = getattr(m, nm)
+            for i in range(n):
+                arr[i] = a[i]
+        elif md == 'view':
+            setattr(m, nm, np.concatenate([a, a])[n:])
+        else:
+            m.__dict__['_' + nm][:] = a
+    if share:
+        kind, grp = share
+        lead = grp[0]
+        for f in grp[1:]:
+            if kind == 'same-object':
+                setattr(m, f, handed[lead])
+            elif kind == 'slice-of-bigger':
+                setattr(m, f, handed[lead].base[2:2 + n])
+            elif kind == 'other-variable':
+                setattr(m, f, getattr(m, lead))
+            elif kind == 'other-variable-setitem':
+                m[f] = m[lead]
+            elif kind == 'replace-values-other':
+                m.replace_values(**{f: getattr(m, lead)})
+            else:
+                setattr(m, f, getattr(m, lead)[:])
+    if plan['copy_after']:
+        m = m.copy()
+    return m
+
+
+def restore(m, data0):
+    """Put the data vector back IN PLACE (the arrays — and whatever they share — stay the ones the history produced)."""
+    for nm, a in data0.items():
+        m.__dict__['_' + nm][:] = a
 
 
 # ---------------------------------------------------------------------------------------------------------------
